@@ -90,6 +90,8 @@ pub enum AQ {
     AggOrdered { t: u8, group: u8, aggs: Vec<(u8, u16)>, desc: bool, #[serde(default)] agg_first: bool },
     /// INSERT with a column list (omitted columns become NULL) and 1-3 rows
     Insert { t: u8, cols: Vec<u8>, rows: Vec<Vec<Option<u8>>> },
+    /// INSERT INTO t SELECT * FROM t [WHERE p]: the statement reads the table it writes
+    InsertSelf { t: u8, pred: Option<AB> },
 }
 
 #[derive(Clone, Debug, Serialize, Deserialize, Hash)]
@@ -255,6 +257,7 @@ pub enum Resolved {
     Update { table: u8, sets: Vec<(u8, E)>, pred: Option<E> },
     Delete { table: u8, pred: Option<E> },
     Insert { table: u8, cols: Vec<u8>, rows: Vec<Vec<Val>> },
+    InsertSelf { table: u8, pred: Option<E> },
 }
 
 pub fn resolve_q(q: &AQ, tables: &[TableData]) -> Resolved {
@@ -344,6 +347,11 @@ pub fn resolve_q(q: &AQ, tables: &[TableData]) -> Resolved {
             let t = t % nt;
             let sc = scope_of(tables, &[t]);
             Resolved::Delete { table: t, pred: pred.as_ref().map(|p| res_b(p, &sc)) }
+        }
+        AQ::InsertSelf { t, pred } => {
+            let t = t % nt;
+            let sc = scope_of(tables, &[t]);
+            Resolved::InsertSelf { table: t, pred: pred.as_ref().map(|p| res_b(p, &sc)) }
         }
         AQ::Join3 { kinds, ons, pred } => {
             let ts = [0u8, if nt > 1 { 1 } else { 0 }, if nt > 2 { 2 } else { 0 }];
@@ -471,6 +479,10 @@ pub fn features_of(q: &Resolved) -> Vec<String> {
             add(pred, &mut f);
         }
         Resolved::Insert { .. } => f.push("q.insert_column_list"),
+        Resolved::InsertSelf { pred, .. } => {
+            f.push("q.insert_select_self");
+            add(pred, &mut f);
+        }
         Resolved::Q(Query::Join3 { kinds, ons, pred, .. }) => {
             f.push("q.join3");
             if kinds.iter().any(|k| !matches!(k, JoinKind::Inner | JoinKind::Cross)) {
@@ -694,6 +706,53 @@ pub fn run_case(c: &QCase) -> CaseOut {
                     out.nontrivial.push(hash_of(&(case_hash, qi)));
                 }
             }
+            Resolved::InsertSelf { table, pred } => {
+                let ti = *table as usize;
+                let t = &tables[ti];
+                let names = |_: u8, c: u8| t.cols[c as usize].0.clone();
+                let mut copies = vec![];
+                let mut undefined = false;
+                for r in &t.rows {
+                    let ctx: [&[Val]; 1] = [r.as_slice()];
+                    match pred.as_ref().map(|p| p.eval(&ctx)).unwrap_or(Ok(Val::Bool(true))) {
+                        Ok(Val::Bool(true)) => copies.push(r.clone()),
+                        Ok(_) => {}
+                        Err(_) => undefined = true,
+                    }
+                }
+                if undefined {
+                    out.labels.push("discarded.implementation_defined".into());
+                    continue;
+                }
+                if t.rows.len() + copies.len() > 40 {
+                    continue;
+                }
+                let n = copies.len() as u64;
+                let sql = format!("INSERT INTO {} SELECT * FROM {}{}", t.name, t.name, pred.as_ref().map(|p| format!(" WHERE {}", p.sql(&names, false))).unwrap_or_default());
+                match db.exec(&sql) {
+                    Ok(Out::Affected(k)) if k == n => {}
+                    Ok(o) => {
+                        out.failure = Some(fail("wrong_affected_count", format!("`{sql}`: engine {o:?}, model {n} rows")));
+                        break;
+                    }
+                    Err(crate::dbx::Err::Panic(p)) => {
+                        out.failure = Some(fail("query_panicked", format!("`{sql}`: engine worker panicked: {p}")));
+                        break;
+                    }
+                    Err(e) => {
+                        out.failure = Some(fail("statement_rejected", format!("`{sql}`: {}", e.text())));
+                        break;
+                    }
+                }
+                tables[ti].rows.extend(copies);
+                if let Some(f) = check_table(&mut db, &tables[ti], &sql, &tags) {
+                    out.failure = Some(f);
+                    break;
+                }
+                if n > 0 {
+                    out.nontrivial.push(hash_of(&(case_hash, qi)));
+                }
+            }
             Resolved::Delete { table, pred } => {
                 let t = &tables[*table as usize];
                 let names = |_: u8, c: u8| t.cols[c as usize].0.clone();
@@ -836,6 +895,7 @@ pub fn gen_aq() -> BoxedStrategy<AQ> {
         3 => (0u8..2, prop::collection::vec(0u8..5, 0..3), prop::collection::vec((0u8..6, any::<u16>()), 1..4), prop::option::weighted(0.3, gen_ab())).prop_map(|(t, group, aggs, pred)| AQ::Agg { t, group, aggs, pred }),
         2 => (0u8..2, prop::collection::vec((any::<u16>(), gen_an()), 1..4), prop::option::weighted(0.8, gen_ab())).prop_map(|(t, sets, pred)| AQ::Update { t, sets, pred }),
         1 => (0u8..2, prop::option::weighted(0.9, gen_ab())).prop_map(|(t, pred)| AQ::Delete { t, pred }),
+        1 => (0u8..3, prop::option::weighted(0.6, gen_ab())).prop_map(|(t, pred)| AQ::InsertSelf { t, pred }),
         3 => ([0u8..6, 0u8..6], [join_on(), join_on()], prop::option::weighted(0.3, gen_ab())).prop_map(|(kinds, ons, pred)| AQ::Join3 { kinds, ons, pred }),
         // composite upper key that extends the lower join's key: a.x = b.m, then a.x = c.p AND a.y = c.q
         2 => ([0u8..6, 0u8..6], any::<u16>(), any::<u16>(), any::<u16>(), any::<u16>(), any::<u16>()).prop_map(|(kinds, x, m, p, y, q)| AQ::Join3 { kinds, ons: [AB::ColEq(x, m), AB::And(Box::new(AB::ColEq(x, p)), Box::new(AB::ColEq(y, q)))], pred: None }),
@@ -1049,6 +1109,11 @@ pub fn aq_variants(q: &AQ) -> Vec<AQ> {
         AQ::Delete { t, pred } => {
             for p in opt_ab_variants(pred) {
                 v.push(AQ::Delete { t: *t, pred: p });
+            }
+        }
+        AQ::InsertSelf { t, pred } => {
+            for p in opt_ab_variants(pred) {
+                v.push(AQ::InsertSelf { t: *t, pred: p });
             }
         }
         AQ::Join3 { kinds, ons, pred } => {
